@@ -41,6 +41,16 @@ Explicit-state search over operation histories of the real ``biogeme.database.Da
   of an earlier operation of the same history.  Kind of past x layout of the other table x formula (one with a
   parameter, taken at its initial value) x operation, after a few earlier operations, then a second use of the same
   object after the table has changed.
+* a fifth search takes the operations the library *refuses* as events of the history: the declaration of a panel on a
+  column whose equal values are not consecutive (root tables D, E with interleaved individuals; the columns c and x of every
+  table), a new column under an existing name, and -- as observing operations -- split with fewer than two slices or another
+  group column on panel data, positions outside the table for extract_rows / mdcev_row_split, the two panel-only calls on
+  data that are not panel.  A refused operation leaves the state where it is (complete comparison), and the object is used
+  further afterwards (observers, one more column); hand-written chains put refusals between accepted operations.
+* large tables (40 / 60 / 40 rows: 2-3 individuals in consecutive blocks that are not in ascending order of identifier,
+  one block of a single row; RangeIndex / reversed / duplicate labels): histories through panel, remove on panel data (which
+  rebuilds the map) and build_panel_map; the observations of every individual must keep the order of the table (the flat
+  table numbers them, extract_rows designates them by position), the flat table is compared with the original table.
 
 The reference model never imports biogeme / pandas / numpy.
 """
@@ -99,17 +109,45 @@ RULE = ('one case per executed operation: (root table, history, operation, rando
         'x formulas lin, mix, b*x+c | also obs, frac, fixed parameter x {add_column, define_variable, values_from_database} and x '
         'conditions c==1, x>k | also or, c-1 for remove, x 4 earlier histories x 3|6 root tables; each followed by a second use '
         'of the same object (define_variable / values_from_database after add_column + scale_column; remove after remove + '
-        'scale_column).  (a|b = quick|thorough)')
+        'scale_column).  Refusals (fifth search, depth 2|3 from A, B, D, E | also C and typed D.f, E.i, D.v; D / E = 5 rows '
+        'whose individuals are interleaved): remove x 3|5 conditions, add_column y1, scale x, build_panel_map, and the refused '
+        'events panel(id) on non-consecutive individuals, panel(c), panel(x), add_column / define_variable under an existing '
+        'name; in every state the reduced observer list plus 7 refused observing calls (split(1), split(0), split(2, other '
+        'group) on panel, extract_rows([n]), ([-1]), ([0, n]), mdcev_row_split([n]), sample_individual_map / flat on non-panel '
+        'data); after every refused event the complete state comparison, then sizes / values / count / extract / flatten and '
+        'one add_column on the same object; 3 chains of 6 operations with refusals between accepted operations x 6|10 tables, '
+        'observers after every step.  Large tables L1 (2 x 20 rows), L2 (3 x 20, reversed labels), L3 (17 + 1 + 22, duplicate '
+        'labels) | also typed L1.f, L2.i, L3.v, blocks not in ascending order of identifier: 7 histories of 1-4 operations '
+        '(panel; remove, panel; panel, remove; panel, add, remove, build_map; scale, remove, panel, remove; panel, remove an '
+        'individual, define, build_map; remove, panel, remove, add), every step compared row by row in the order of the table, '
+        'observers (sizes, values, count for every present value, extract / mdcev_row_split reduced designations, sample of size '
+        '1 at every position, sample of the map with every vector over the individuals, split 2 / 3 grouped with every '
+        'permutation, flat table detected / given / none identical, flatten_database) after the last step | in every panel '
+        'state.  Identifiers: panel(id) [, remove] then scale_column(id, k), k in 10, 0.5 | 2, 100, 0.25, on A, B, L1 | C, A.f, L2, '
+        'complete comparison and observers.  Row names: flatten_database(row_name = r) x identical columns detected / given / '
+        'none on all 3^5 raw frames of every layout (quick: layouts 0, 1 and the singleton layout).  (a|b = quick|thorough)')
 ASSUMPTIONS = [
     'tables have 5 rows (ids grouped 2-1-2) and 4 numeric columns with dyadic values so that the reference arithmetic is '
     'exact; three root tables: RangeIndex / permuted integer labels with unsorted individual ids / duplicate labels '
-    '(as produced by pd.concat or by the library\'s own sample_with_replacement); VERIF_SEED selects one of five value alphabets',
+    '(as produced by pd.concat or by the library\'s own sample_with_replacement); two 5-row tables with interleaved '
+    'individuals and three large tables (40-60 rows) are used by the refusal and large-table parts only (reduced observer '
+    'menus there: no enumeration of 40! shuffles); VERIF_SEED selects one of five value alphabets',
+    'an operation the library documents as refused (BiogemeError / ValueError / IndexError) is an event after which the rows '
+    'and values of the table are what they were ("keep rows and values intact"): the state is compared completely; whether '
+    'the refusal happens is not demanded (an accepted call is compared as carried out and counted)',
     'column types are int64 and float64 (what a CSV reader produces for numeric columns; the library refuses non-numeric '
     'columns): x float64 and id, r, c int64 in the three base tables, all-int64 / all-float64 / read_csv-inferred variants '
     '(x = 4*XS as integers) in the column-type parts; the statement speaks of values, so the type of a column after an '
     'operation is not checked, only every value; operands that are not dyadic (0.01, 1/3, 0.999, 1e-3) are multiplied in '
     'the reference by the same single IEEE operation (integer cell -> float, times operand) and compared at relative 1e-10; '
-    'scaling the panel column after panel() (a change of the identifiers the individual map is keyed by) is not in the alphabet',
+    'scaling the panel column after panel() (a change of the identifiers the individual map is keyed by) is not in the alphabet '
+    'of the column-type parts; it has a part of its own (positive factors only: grouping and order of the individuals are '
+    'kept): the map of the individuals must name the individuals of the rescaled table (a bootstrap sample of the map holds '
+    'only existing individuals)',
+    'flatten_database(row_name=...) is exercised on the raw frames with the tag column r as row name (unique on every row, so '
+    'never the documented refusal of duplicate names inside an individual); the new columns are identified as '
+    '(value of r, column) whatever the spelling of the value; when every individual is observed once a flat table with '
+    'every column identical is accepted as well',
     'library randomness enters only through numpy.random.randint, numpy.random.shuffle and DataFrame.sample(frac=1) '
     '(owned; a call outside an enumerated operation, or a different use of the seams, is a harness error)',
     'excludedData is the number of rows deleted by the most recent remove (the documented per-call meaning)',
@@ -122,8 +160,10 @@ ASSUMPTIONS = [
     'never refer to an undefined cell (whether NaN is "non-zero" / "equal to NaN" is not fixed by the statement); in the '
     'flat table a column that is undefined on all observations of an individual may be laid out as identical or as '
     'varying (both keep every value), any other column with an undefined cell next to a defined one must be varying',
-    'the panel sort must order the rows by individual id; the order of the rows inside one individual is not fixed by '
-    'the statement (pandas sorts unstably): the reference adopts the observed order and counts the event',
+    'the panel sort must order the rows by individual id and keep the observations of one individual in the order of the '
+    'table (the flat table numbers them in that order and rows are designated by position: "what the original table '
+    'implies"); a different order inside an individual is reported once (clause individual-rows-reordered-by-panel-sort), '
+    'the comparison then goes on with the observed order',
     'fold sizes and the distribution of the samples are not part of the statement and are not checked',
     'mdcev_row_split is taken as an entry point of "extracting rows" (it returns the designated rows of the current table, one '
     'Database each); a designation is any iterable of in-range positions, including an empty one and numpy containers '
@@ -457,7 +497,8 @@ class RefTable:
         t = term_of(formula)
         for rid, row in self.rows:
             row[name] = ev(t, row)
-        self.cols.append(name)
+        if name not in self.cols:
+            self.cols.append(name)
 
     def scale(self, col, s):
         for rid, row in self.rows:
@@ -498,6 +539,18 @@ class RefTable:
         for r, row in self.rows:
             if r == rid:
                 return row
+        return None
+
+    def refuses(self, op):
+        """Documented refusals: the declaration of a panel on a column whose equal values are not consecutive
+        (BiogemeError), a new column under an existing name (ValueError).  A refused operation leaves the table as it is."""
+        k = op[0]
+        if k == 'panel':
+            vals = [row[op[1]] for _, row in self.rows]
+            runs = sum(1 for i, v in enumerate(vals) if i == 0 or vals[i - 1] != v)
+            return 'values-not-consecutive' if runs != len(set(vals)) else None
+        if k in ('add', 'define'):
+            return 'existing-column-name' if op[1] in self.cols else None
         return None
 
     def apply(self, op):
@@ -560,18 +613,42 @@ def dt_mutators(ref: RefTable, tier):
             ops.append(['define', name])
     for col, s in (DT_SCALES_T if tier == 'thorough' else DT_SCALES_Q):
         # the map of the individuals is keyed by the values of the panel column: scaling that column afterwards is a
-        # change of the identifiers, about which the statement says nothing
+        # change of the identifiers; it is explored by the part 'idscale' (one finding key), not here
         if col != ref.panel:
             ops.append(['scale', col, s])
     ops.append(['panel', 'id'])
     return ops
 
 
+def rf_mutators(ref: RefTable, tier):
+    """The refusal alphabet: a few basic operations and the operations the library documents as refused in this state
+    (panel on a column whose equal values are not consecutive, a new column under an existing name)."""
+    ops = []
+    for c in (['c_eq_1', 'id_mid', 'first'] + (['x_gt', 'last'] if tier == 'thorough' else [])):
+        ops.append(['remove', c])
+    if 'y1' not in ref.cols:
+        ops.append(['add', 'y1'])
+    ops.append(['add', 'x', 'lin'])                       # refused: the column exists
+    ops.append(['define', 'c', 'prod'])                   # refused: the column exists
+    if 'y1' in ref.cols and tier == 'thorough':
+        ops.append(['add', 'y1', 'mix'])                  # refused: the column was added earlier
+    ops.append(['scale', 'x', 0.5])
+    ops.append(['panel', 'id'])                           # refused when the individuals are not consecutive
+    for col in ('c', 'x'):
+        # a column that does not identify consecutive blocks: enabled only while it is refused (and not yet panel)
+        if ref.panel is None and ref.refuses(['panel', col]):
+            ops.append(['panel', col])
+    ops.append(['build_map'])
+    return ops
+
+
 def mutators(ref: RefTable, tier, wide=False):
     """Enabled mutating operations in the state described by the reference, simplest first.
-    `wide`: False = base alphabet, True / 'wide' = wide alphabet, 'dt' = column-type alphabet."""
+    `wide`: False = base alphabet, True / 'wide' = wide alphabet, 'dt' = column-type alphabet, 'rf' = refusal alphabet."""
     if wide == 'dt':
         return dt_mutators(ref, tier)
+    if wide == 'rf':
+        return rf_mutators(ref, tier)
     if wide:
         return wide_mutators(ref, tier)
     ops = []
@@ -952,9 +1029,9 @@ def compare_state(s, db, ref: RefTable):
 
 
 def reconcile_order(s, ref: RefTable):
-    """The statement does not fix the order of the observations *within* an individual after the panel sort
-    (pandas sorts with an unstable algorithm).  If the real table holds the reference rows sorted by individual
-    and differs only in the order inside individuals, the reference adopts that order.  Returns True if it did."""
+    """If the real table holds the reference rows sorted by individual and differs only in the order inside individuals
+    (an unstable sort), the reference adopts that order so that the comparison can go on.  Returns True if it did: the
+    step that caused it reports the clause REORDERED (step_and_compare)."""
     if ref.panel is None or 'r' not in s['cols'] or ref.panel not in s['cols']:
         return False
     ri, pi = s['cols'].index('r'), s['cols'].index(ref.panel)
@@ -971,6 +1048,9 @@ def reconcile_order(s, ref: RefTable):
     return True
 
 
+REORDERED = 'individual-rows-reordered-by-panel-sort'
+
+
 class Replayed:
     def __init__(self, db, ref, snap_):
         self.db, self.ref, self.snap = db, ref, snap_
@@ -981,6 +1061,13 @@ def replay_history(table, history, check=True):
     db = make_db(table)
     ref = RefTable(table)
     for op in history:
+        if ref.refuses(op):
+            try:
+                apply_real(db, ref, op)
+            except Exception:  # noqa: BLE001  (the refusal: nothing happens)
+                continue
+            ref.apply(op)
+            continue
         apply_real(db, ref, op)
         ref.apply(op)
         if ref.panel is not None:
@@ -995,13 +1082,36 @@ def replay_history(table, history, check=True):
 
 
 # --------------------------------------------------------------------------- observers
-def observers(ref: RefTable, tier, wide=False, dt=False):
+def refused_observers(ref: RefTable):
+    """Observing operations the library documents as refused in this state (the table must stay as it is)."""
+    ops = [['refused', k] for k in ('split-1-slice', 'split-0-slices', 'extract-position-n', 'extract-negative-position',
+                                    'extract-0-and-n', 'rowsplit-position-n')]
+    if ref.panel is None:
+        ops += [['refused', 'sample_map-not-panel'], ['refused', 'flat-not-panel']]
+    else:
+        ops += [['refused', 'split-other-group']]
+    return ops
+
+
+def observers(ref: RefTable, tier, wide=False, dt=False, rf=False, large=False):
     """Observing operations enabled in the state, as JSON-able descriptors.  `wide`: the reduced list used in the
     states of the wide alphabet and of the pattern sweeps (the complete list runs in the states of the main search).
     `dt`: states of the column-type alphabet -- additionally a formula with non-integer coefficients."""
     n = len(ref.rows)
     ops = []
     if n == 0:
+        return ops
+    if large or n > 8:
+        # large tables: the designations and random answers are a fixed reduced menu (every single position for the sample
+        # of size 1, every vector / permutation over the individuals)
+        ops += [['sizes'], ['values', 'lin'], ['values', 'obs'], ['count'], ['extract', 'reduced'], ['rowsplit', 'reduced'],
+                ['sample', 0], ['sample', 1]]
+        if len({row['id'] for _, row in ref.rows}) <= 4 and ref.panel in (None, 'id'):
+            ops += [['split', 2, 'id'], ['split', 3, 'id']]
+        if ref.panel is not None:
+            ops += [['split', 2, None], ['sample_map', None], ['sample_map', 0], ['sample_map', 2], ['flat', 'auto'],
+                    ['flat', 'given'], ['flat', 'given_empty']]
+        ops += [['flat_tool', 'auto'], ['flat_tool', 'given'], ['flat_tool', 'given_empty']]
         return ops
     if dt:
         ops.append(['values', 'frac'])
@@ -1013,6 +1123,8 @@ def observers(ref: RefTable, tier, wide=False, dt=False):
         ops += [['flat_tool', 'auto'], ['flat_tool', 'given'], ['flat_tool', 'given_empty']]
         if ref.has_undefined():
             ops.append(['flat_tool', 'given_undefined_equal'])
+        if rf:
+            ops += refused_observers(ref)
         return ops
     ops.append(['sizes'])
     for f in ('obs', 'lin'):
@@ -1193,6 +1305,64 @@ def check_flat(flat, ref: RefTable, arg, by=None):
     return obs, first
 
 
+def check_flat_named(flat, ref: RefTable, arg, by, row_name):
+    """Flat table built with a row-name column (the new columns are called <value of row_name>_<column>) against what the
+    reference table implies -> (observation, [(clause, detail)]).  The spelling of the value in the name is not fixed."""
+    fcols = [str(c) for c in flat.columns]
+    got = {}
+    for lab, row in zip(flat.index.tolist(), flat.itertuples(index=False, name=None)):
+        d = {}
+        for c, v in zip(fcols, row):
+            if c in ref.cols:
+                d[c] = fnum(v)
+            else:
+                name, _, col = c.partition('_')
+                try:
+                    d[(float(name), col)] = fnum(v)
+                except ValueError:
+                    d[c] = fnum(v)
+        got[fnum(lab)] = d
+    obs = (sorted((g, sorted(d.items(), key=repr)) for g, d in got.items()).__repr__(), len(got), len(fcols))
+    groups = {}
+    for rid, row in ref.rows:
+        groups.setdefault(row[by], []).append(row)
+    names = sorted({row[row_name] for _, row in ref.rows})
+    first = None
+    layouts = []
+    for ident in flat_layouts(ref, arg, by):
+        layouts.append([c for c in ident if c != row_name])
+        if row_name in ident and arg is None:
+            layouts.append(list(ident))           # one observation per individual: every column identical, nothing to name
+    for ident in layouts:
+        varying = [c for c in ref.cols if c not in (by, row_name) and c not in ident]
+        want = {}
+        for g, rows in groups.items():
+            d = {c: rows[0][c] for c in ident}
+            for nm in (names if varying else []):
+                hit = [r_ for r_ in rows if r_[row_name] == nm]
+                for c in varying:
+                    d[(nm, c)] = hit[0][c] if hit else float('nan')
+            want[g] = d
+        problems = []
+        if sorted(got) != sorted(want):
+            problems.append(('flat-individuals', f'flat table has rows {flat.index.tolist()}, individuals are {sorted(want)}'))
+        else:
+            for g in sorted(want):
+                if sorted(got[g], key=repr) != sorted(want[g], key=repr):
+                    problems.append(('flat-columns', f'individual {g}: columns {sorted(got[g], key=repr)}, expected '
+                                                     f'{sorted(want[g], key=repr)}'))
+                    break
+                diffs = [(c, got[g][c], want[g][c]) for c in want[g] if not close(got[g][c], want[g][c])]
+                if diffs:
+                    problems.append(('flat-values', f'individual {g}: (column, flat value, table value) {diffs[:3]}'))
+                    break
+        if not problems:
+            return obs, []
+        if first is None or (problems[0][0] == 'flat-values' and first[0][0] != 'flat-values'):
+            first = problems
+    return obs, first
+
+
 def run_observer(R: Replayed, op, tier, rec: Rec, ctx, only_answer=None):
     """Executes one observing operation with every answer; records cases; returns list of
     (clause, detail, answer) problems."""
@@ -1267,7 +1437,10 @@ def run_observer(R: Replayed, op, tier, rec: Rec, ctx, only_answer=None):
         rec.count('skipped_extract_rows_on_a_table_with_undefined_values')
     elif k == 'extract':
         full = list(range(n))
-        plan = [('list', lst) for lst in extract_lists(n, tier)]
+        if len(op) > 1 and op[1] == 'reduced':
+            plan = [('list', lst) for lst in ([0], [n - 1], [n // 2], [n - 1, 0], [n // 2, n // 2 + 1], full, full[::-1])]
+        else:
+            plan = [('list', lst) for lst in extract_lists(n, tier)]
         # the argument is declared Iterable[int]: other iterable forms of a few position lists
         plan += [('tuple', full), ('range', full), ('iterator', full), ('iterator', [n - 1, 0]), ('tuple', [n - 1, 0])]
         # ... and the containers / integers of numpy (what an index computation returns)
@@ -1442,15 +1615,36 @@ def run_observer(R: Replayed, op, tier, rec: Rec, ctx, only_answer=None):
         # the function behind generate_flat_panel_dataframe, called directly on the table (panel or not)
         from biogeme.tools.database import flatten_database
 
+        named, _, variant = op[1].rpartition(':')        # 'rn:<variant>': the tag column r gives the names of the rows
         arg = {'auto': None, 'given': truly_identical(ref, 'id'), 'given_empty': [],
-               'given_undefined_equal': truly_identical(ref, 'id', undefined_equal=True)}[op[1]]
-        r, err = guard(lambda: flatten_database(db.data, 'id', identical_columns=None if arg is None else list(arg)), None)
+               'given_undefined_equal': truly_identical(ref, 'id', undefined_equal=True)}[variant]
+        if named:
+            arg = None if arg is None else [c for c in arg if c != 'r']
+            r, err = guard(lambda: flatten_database(db.data, 'id', row_name='r',
+                                                    identical_columns=None if arg is None else list(arg)), None)
+        else:
+            r, err = guard(lambda: flatten_database(db.data, 'id', identical_columns=None if arg is None else list(arg)), None)
         if err:
             problems.append(err)
             return problems
-        obs, bad = check_flat(r[0], ref, arg, by='id')
+        obs, bad = check_flat_named(r[0], ref, arg, 'id', 'r') if named else check_flat(r[0], ref, arg, by='id')
         case(op[1], obs[0], ('flat_tool', op[1], obs[1], obs[2]), nontrivial=False)
         problems += [(c, d, None) for c, d in bad]
+    elif k == 'refused':
+        kind = op[1]
+        fn = {'split-1-slice': lambda: db.split(1), 'split-0-slices': lambda: db.split(0),
+              'split-other-group': lambda: db.split(2, 'c'),
+              'extract-position-n': lambda: db.extract_rows([n]), 'extract-negative-position': lambda: db.extract_rows([-1]),
+              'extract-0-and-n': lambda: db.extract_rows([0, n]), 'rowsplit-position-n': lambda: db.mdcev_row_split([n]),
+              'sample_map-not-panel': lambda: db.sample_individual_map_with_replacement(2),
+              'flat-not-panel': lambda: db.generate_flat_panel_dataframe()}[kind]
+        _, err = guard(fn, None)
+        case(kind, None if err is None else err[1].split(':')[0], ('refused', kind, err is not None), nontrivial=False)
+        if err is None:
+            rec.count('documented_refusal_did_not_happen')
+        else:
+            rec.count('refused_operations')
+        # the oracle is applied by the caller: the state after the call is the state before it
     else:
         raise ValueError(op)
     return problems
@@ -1461,7 +1655,7 @@ def op_label(op):
 
 
 def root_alphabet(root):
-    return 'dt' if root.get('dt') else bool(root.get('wide'))
+    return 'dt' if root.get('dt') else 'rf' if root.get('rf') else bool(root.get('wide'))
 
 
 def _valid_history(table, hist, alphabet=False):
@@ -1521,6 +1715,8 @@ def operand_class(root, snap_, op):
     (the class of input a type-dependent defect is tied to).  Empty for the other searches (their keys stay as they were)."""
     if prov_of(op) is not None:
         return prov_class(op)
+    if root.get('idscale'):
+        return ';column=identifiers-of-the-panel' if op[0] == 'scale' and op[1] == 'id' else ''
     if not root.get('dt') or snap_ is None:
         return ''
     types = dict(zip(snap_['cols'], snap_['dtypes']))
@@ -1550,7 +1746,8 @@ def report(rec, problems, op, root, history, flags, observer, shrink=False, extr
             history_, flags_ = history, flags
         # failures tied to the form of an argument do not depend on the state: one key
         # ... nor do failures tied to the past of the formula object (the key names that past instead)
-        key = (f'C13|{clause}|op={op_label(op)}' if clause.endswith('-argument')
+        key = (f'C13|{clause}|{"large" if is_large(root["table"]) else "small"}-table' if clause == REORDERED
+               else f'C13|{clause}|op={op_label(op)}' if clause.endswith('-argument')
                else f'C13|{clause}|op={op_label(op)}{extra}' if prov_of(op) is not None
                else f'C13|{clause}|op={op_label(op)};state={flags_}{extra}')
         case = dict(root=root, history=history_, op=op, observer=observer, answer=answer)
@@ -1562,14 +1759,15 @@ def report(rec, problems, op, root, history, flags, observer, shrink=False, extr
 # --------------------------------------------------------------------------- expansion of one state
 def expand(root, history, rec: Rec, do_observers=True, do_mutators=True, shrink=False):
     table, tier, wide = root['table'], root['tier'], root_alphabet(root)
-    label = table + ('/dt' if wide == 'dt' else '/wide' if wide else '')
+    label = table + ('/dt' if wide == 'dt' else '/rf' if wide == 'rf' else '/wide' if wide else '')
     R = replay_history(table, history)
     flags = flags_of(R.snap)
     canon0 = canon_of(R.snap)
     ctx = dict(root=label, hist=json.dumps(history), depth=len(history))
     succ = []
     if do_observers:
-        for op in observers(R.ref, tier, bool(wide) and not root.get('all_observers'), dt=wide == 'dt'):
+        for op in observers(R.ref, tier, bool(wide) and not root.get('all_observers'), dt=wide == 'dt', rf=wide == 'rf',
+                            large=is_large(table)):
             problems = run_observer(R, op, tier, rec, ctx)
             report(rec, problems, op, root, history, flags, True, shrink=shrink, extra=operand_class(root, R.snap, op))
             # an observing operation must leave the state unchanged
@@ -1594,6 +1792,19 @@ def expand(root, history, rec: Rec, do_observers=True, do_mutators=True, shrink=
             if problems:
                 report(rec, problems, op, root, history, flags, False, extra=operand_class(root, R.snap, op))
                 continue
+            if wide == 'rf' and R.ref.refuses(op) and canon_of(s2) == canon0:
+                # the object that went through the refusal is used further: what it returns and stores is still what the
+                # table implies
+                h2 = history + [op]
+                ctx2 = dict(root=label, hist=json.dumps(h2), depth=len(h2))
+                for ob in (['sizes'], ['values', 'lin'], ['count'], ['extract', 'reduced'], ['flat_tool', 'auto']):
+                    report(rec, run_observer(R2, ob, tier, rec, ctx2), ob, root, h2, flags, True)
+                nxt = ['add', 'u9', 'lin']
+                p2, s3 = step_and_compare(R2, nxt, rec)
+                rec.case((label, ctx2['hist'], tuple(map(str, nxt))), (nxt, None if s3 is None else canon_of(s3)),
+                         outcome=('after-refusal', op[0], None if s3 is None else len(s3['cols'])))
+                rec.transition()
+                report(rec, p2, nxt, root, h2, flags, False)
             succ.append(dict(event=op, canon=canon_of(s2),
                              expand=len(s2['rows']) > 0 and len(history) + 1 < root.get('depth', 99)))
     return succ
@@ -1603,6 +1814,26 @@ def step_and_compare(R2: Replayed, op, rec):
     """Applies a mutating op to real object and reference; returns (problems, snapshot after)."""
     db, ref = R2.db, R2.ref
     before_cols = list(ref.cols)
+    why = ref.refuses(op)
+    if why:
+        # a documented refusal: whatever the library answers, the rows and values of the table stay what they were
+        try:
+            apply_real(db, ref, op)
+        except Exception as e:  # noqa: BLE001
+            if type(e).__name__ == 'RuntimeError':
+                rec.retire = True
+            rec.count('refused_operations')
+            try:
+                s2 = snap(db)
+            except Exception as e2:  # noqa: BLE001
+                return [('snapshot-failed-after-refusal', f'{type(e2).__name__}: {e2}')], None
+            bad = compare_state(s2, db, ref)
+            return [(c + '-after-refusal', f'{op} was refused ({type(e).__name__}, {why}); afterwards {d}') for c, d in bad], s2
+        rec.count('documented_refusal_did_not_happen')      # accepted instead: then it must have been carried out
+        ref.apply(op)
+        s2 = snap(db)
+        reconcile_order(s2, ref)
+        return compare_state(s2, db, ref), s2
     try:
         ret = apply_real(db, ref, op)
     except Exception as e:  # noqa: BLE001
@@ -1614,8 +1845,17 @@ def step_and_compare(R2: Replayed, op, rec):
         s2 = snap(db)
     except Exception as e:  # noqa: BLE001
         return [('snapshot-failed', f'{type(e).__name__}: {e}')], None
+    stable_order = [rid for rid, _ in ref.rows]
     if reconcile_order(s2, ref):
+        # the rows are grouped by individual, but the observations of an individual are no longer in the order of the
+        # table (flattening numbers them, extract_rows designates them by position): reported once, then the comparison
+        # goes on with the observed order
         rec.count('panel_sort_changed_order_inside_an_individual')
+        got = [rid for rid, _ in ref.rows]
+        first = next(i for i, (a, b) in enumerate(zip(got, stable_order)) if a != b)
+        return [(REORDERED, f'after {op} the rows (by tag r) from position {first} on are {got[first:first + 8]}..., the order of '
+                            f'the table implies {stable_order[first:first + 8]}... (observations of individual '
+                            f'{ref.rows[first][1][ref.panel]})')] + compare_state(s2, db, ref), s2
     problems = compare_state(s2, db, ref)
     # return values
     if op[0] == 'add' and not problems:
@@ -1647,6 +1887,10 @@ def bfs_roots(tier, seed):
     if tier == 'thorough':
         # the base alphabet (complete observer list) from one table of each column typing
         roots += [dict(table=t, tier=tier, depth=3) for t in dt_tables('quick')]
+    # fifth search: the refusal alphabet (operations the library refuses are events that leave the state where it is),
+    # from tables whose individuals are consecutive (A, B | C) and tables where they are not (D, E | typed)
+    roots += [dict(table=t, tier=tier, rf=True, depth=2 if tier == 'quick' else 3)
+              for t in (('A', 'B', 'D', 'E') if tier == 'quick' else ('A', 'B', 'C', 'D', 'E', 'D.f', 'E.i', 'D.v'))]
     return roots
 
 
@@ -1767,7 +2011,88 @@ def tasks(tier, seed):
     for li in range(2 if tier == 'quick' else len(tool_layouts())):
         for lead in range(3):
             t.append(dict(part='tool', layout=li, lead=lead, tier=tier))
+    if tier == 'quick':
+        # the row-name variants also on the frame whose individuals are observed once (the complete menu runs in thorough)
+        t.append(dict(part='tool', layout=len(tool_layouts()) - 1, lead=0, tier=tier, only='rn:'))
+    # the identifiers of a panel are rescaled (change of coding): the map of the individuals follows
+    for table in (['A', 'B', 'L1'] if tier == 'quick' else ['A', 'B', 'C', 'A.f', 'L1', 'L2']):
+        t.append(dict(part='idscale', root=dict(table=table, tier=tier, idscale=True)))
+    # large tables (blocks of individuals not in ascending order): histories through panel / remove on panel / build_map
+    for table in (['L1', 'L2', 'L3'] if tier == 'quick' else ['L1', 'L2', 'L3', 'L1.f', 'L2.i', 'L3.v']):
+        for hi in range(len(LARGE_HISTORIES)):
+            t.append(dict(part='large', root=dict(table=table, tier=tier, large=True), history=hi))
+    # chains with refused operations in the middle
+    for table in (['A', 'B', 'C', 'D', 'E', 'L2'] if tier == 'quick' else ['A', 'B', 'C', 'D', 'E', 'L1', 'L2', 'L3', 'D.f', 'E.i']):
+        for ci in range(len(RF_CHAINS)):
+            t.append(dict(part='rfchain', root=dict(table=table, tier=tier, rf=True), chain=ci))
     return t
+
+
+LARGE_HISTORIES = [
+    [['panel', 'id']],
+    [['remove', 'c_eq_1'], ['panel', 'id']],
+    [['panel', 'id'], ['remove', 'c_eq_1']],                                       # the map is rebuilt by remove
+    [['panel', 'id'], ['add', 'y1'], ['remove', 'x_gt'], ['build_map']],
+    [['scale', 'x', 0.5], ['remove', 'first'], ['panel', 'id'], ['remove', 'last']],
+    [['panel', 'id'], ['remove', 'id_mid'], ['define', 'z'], ['build_map']],
+    [['remove', 'or'], ['panel', 'id'], ['remove', 'c_minus_1'], ['add', 'y2']],
+]
+RF_CHAINS = [
+    [['panel', 'id'], ['remove', 'id_mid'], ['panel', 'id'], ['add', 'x', 'lin'], ['remove', 'first'], ['define', 'c', 'prod']],
+    [['panel', 'c'], ['add', 'y1'], ['add', 'y1', 'mix'], ['scale', 'x', 0.5], ['panel', 'c'], ['remove', 'c_eq_1']],
+    [['add', 'x', 'lin'], ['panel', 'x'], ['panel', 'id'], ['panel', 'c'], ['remove', 'last'], ['build_map']],
+]
+
+
+IDSCALE_PRE = [[['panel', 'id']], [['panel', 'id'], ['remove', 'first']], [['add', 'y1'], ['panel', 'id'], ['remove', 'c_eq_1']]]
+IDSCALE_FACTORS_Q, IDSCALE_FACTORS_T = [10, 0.5], [10, 0.5, 2, 100.0, 0.25]
+
+
+def _run_idscale(task, rec):
+    """panel('id') ... scale_column('id', k) with k > 0 (the order and the grouping of the individuals are kept, only their
+    coding changes): the table, the map of the individuals (whom it names, which rows it gives them) and what the
+    observers return are those of the rescaled table."""
+    root = task['root']
+    thorough = root['tier'] == 'thorough'
+    rec.sample(dict(part='idscale', root=root, pre=IDSCALE_PRE, factors=IDSCALE_FACTORS_T if thorough else IDSCALE_FACTORS_Q))
+    for pre in IDSCALE_PRE:
+        for k in (IDSCALE_FACTORS_T if thorough else IDSCALE_FACTORS_Q):
+            h = pre + [['scale', 'id', k]]
+            if _run_steps(root, h, rec, 'idscale', observe_last=True, start=len(pre)) and thorough:
+                _run_steps(root, h + [['remove', 'last']], rec, 'idscale', observe_last=True, start=len(h))
+
+
+def _run_large(task, rec):
+    root, h = task['root'], LARGE_HISTORIES[task['history']]
+    rec.sample(dict(part='large', root=root, history=h, blocks=LARGE[split_table(root['table'])[0]]))
+    thorough = root['tier'] == 'thorough'
+    for i in range(1, len(h) + 1):
+        # every step compared; observers after the last step | thorough: in every state that is panel
+        if i == len(h) or (thorough and any(op[0] == 'panel' for op in h[:i])):
+            if not _run_steps(root, h[:i], rec, 'large', observe_last=True, start=i - 1):
+                return
+        elif not _run_steps(root, h[:i], rec, 'large', observe_last=False, start=i - 1):
+            return
+
+
+def _run_rfchain(task, rec):
+    root, chain = task['root'], RF_CHAINS[task['chain']]
+    # a declaration on a column other than id belongs to the alphabet only while it is refused
+    ref, h = RefTable(root['table']), []
+    for op in chain:
+        if len(ref.rows) == 0:
+            break
+        if op[0] == 'panel' and op[1] != 'id' and not (ref.panel is None and ref.refuses(op)):
+            continue
+        if op[0] == 'add' and len(op) == 2 and op[1] in ref.cols:
+            continue
+        h.append(op)
+        if not ref.refuses(op):
+            ref.apply(op)
+    rec.sample(dict(part='rfchain', root=root, chain=h))
+    for i in range(1, len(h) + 1):
+        if not _run_steps(root, h[:i], rec, 'rfchain', observe_last=True, start=i - 1):
+            return
 
 
 def run_task(task):
@@ -1775,7 +2100,8 @@ def run_task(task):
     install_seams()
     try:
         {'chain': _run_chain, 'mag': _run_mag, 'nanpat': _run_nanpat, 'tool': _run_tool,
-         'dtsweep': _run_dtsweep, 'prov': _run_prov}[task['part']](task, rec)
+         'dtsweep': _run_dtsweep, 'prov': _run_prov, 'large': _run_large, 'rfchain': _run_rfchain,
+         'idscale': _run_idscale}[task['part']](task, rec)
     finally:
         remove_seams()
     return rec.result()
@@ -1825,7 +2151,8 @@ def _run_steps(root, history, rec, tag, observe_last=True, start=0):
     if observe_last:
         ref = RefTable(table)
         for op in history:
-            ref.apply(op)
+            if not ref.refuses(op):
+                ref.apply(op)
         if len(ref.rows) > 0:
             expand(root, history, rec, do_observers=True, do_mutators=False)
     return True
@@ -1953,6 +2280,8 @@ def tool_variants(ref):
     v = ['auto', 'given', 'given_empty']
     if truly_identical(ref, 'id', undefined_equal=True) != truly_identical(ref, 'id'):
         v.append('given_undefined_equal')
+    # the optional argument row_name: the tag column r (unique on every row, hence inside every individual) names the rows
+    v += ['rn:auto', 'rn:given', 'rn:given_empty']
     return v
 
 
@@ -1965,7 +2294,16 @@ def _tool_one(layout, pattern, variant, rec):
     if repr(before) != repr(after):
         problems.append(('flatten-changed-its-argument', f'frame before {before} / after {after}', None))
     undefined = 'yes' if 2 in pattern else 'no'
+    singles = len(set(tool_layouts()[layout]['ids'])) == 5
     for p in problems:
+        if variant.startswith('rn:') and singles and p[0] == 'observer-raised':
+            # one defect, one key: the row-name column is constant inside every individual (one observation each)
+            rec.violation('C13|observer-raised|op=flatten_database;row_name=constant-inside-every-individual',
+                          f'flatten_database(frame, "id", row_name="r", identical_columns: {variant[3:]}) on the frame with ids '
+                          f'{tool_layouts()[layout]["ids"]} (every individual observed once), r = {RID}: {p[1]}; the table '
+                          f'implies one row per individual holding its values',
+                          dict(part='tool', layout=layout, pattern=pattern, variant=variant), observed=p[1])
+            continue
         rec.violation(f'C13|{p[0]}|op=flatten_database;identical_columns={variant};undefined-values={undefined}',
                       f'{p[0]}: flatten_database(frame, "id", identical_columns: {variant}) on the frame with ids '
                       f'{tool_layouts()[layout]["ids"]}, index {tool_layouts()[layout]["index"]}, column p = '
@@ -1980,7 +2318,8 @@ def _run_tool(task, rec):
         pattern = [task['lead']] + list(rest)
         _, ref = tool_case(layout, pattern)
         for variant in tool_variants(ref):
-            _tool_one(layout, pattern, variant, rec)
+            if variant.startswith(task.get('only', '')):
+                _tool_one(layout, pattern, variant, rec)
 
 
 def _run_chain(task, rec):
